@@ -286,6 +286,11 @@ def run_schedule(rp, choices, drain=True):
         lmb.os, lmb.time = saved_lmb
         HookTask.__setitem__ = dict.__setitem__
     quiet = all(ctl.where(n) in ('done', 'idle') for n in ctl.workers) and not to_watch and p._watch_queue.empty()
+    werr = ctl.workers['watcher'].error if 'watcher' in ctl.workers else None
+    if werr is not None and not isinstance(werr, coop.Abort):
+        # an exception left _check_running: the real _watch logs it and the watcher thread ends - nothing that is
+        # running or launched later is ever collected
+        rec.append(['watcher-died', repr(werr)])
     ctl.close()
     return obs, done, rec, quiet
 
@@ -393,6 +398,9 @@ def bulk_part(ctx, rp):
 
 def monitor(obs, rec, quiet, drained):
     last = obs[-1] if obs else None
+    for r in rec:
+        if r[0] == 'watcher-died':
+            return ('watcher-thread-died', 'an exception left _check_running (%s): no task is collected any more' % r[1])
     for o in obs:
         if o['started'] > 1: return ('execution-start-announced-twice', str(o))
         if o['unsched'] > 1: return ('resources-released-twice', str(o))
